@@ -13,6 +13,14 @@ from simkit import tls as T
 from simkit import world as W
 from simkit.runner import Result, rng_for
 
+import os
+
+# The machine's own trust store, as OpenSSL finds it, is modelled explicitly: it trusts the *other* throw-away CA (the one that signs
+# the "untrusted issuer" certificates) and nothing else.  A connection that silently falls back from the configured CAs to the system
+# store therefore accepts exactly the certificates the configuration must reject.
+os.environ["SSL_CERT_FILE"] = T.CA_BAD
+os.environ["SSL_CERT_DIR"] = "/nonexistent-verif-certdir"
+
 ID = "C07"
 ENGINE = "simnet"
 LEVEL = "exploration"
@@ -32,8 +40,8 @@ ASSUMPTIONS = [
     "pyOpenSSL backend: direct and http-proxy-tunnel paths only (that backend offers no TLS-in-TLS); ca_cert_data with pyOpenSSL 26.4 fails closed before the handshake and is only counted",
 ]
 REQUIRED_PROBES = {
-    "quick": ["must_reject_held", "accepted", "unverified_warned", "reject:chain", "reject:hostname", "reject:fingerprint", "path:tunnel", "path:tunnel_tlsproxy", "handshake_fault", "either_cell", "ip_host", "wildcard", "pyopenssl_handshake_in_memory"],
-    "thorough": ["must_reject_held", "accepted", "unverified_warned", "reject:chain", "reject:hostname", "reject:fingerprint", "path:tunnel", "path:tunnel_tlsproxy", "handshake_fault", "either_cell", "ip_host", "wildcard", "pyopenssl_handshake_in_memory"],
+    "quick": ["must_reject_held", "accepted", "unverified_warned", "reject:chain", "reject:hostname", "reject:fingerprint", "path:tunnel", "path:tunnel_tlsproxy", "handshake_fault", "either_cell", "ip_host", "wildcard", "pyopenssl_handshake_in_memory", "prelude_http_pool_built"],
+    "thorough": ["must_reject_held", "accepted", "unverified_warned", "reject:chain", "reject:hostname", "reject:fingerprint", "path:tunnel", "path:tunnel_tlsproxy", "handshake_fault", "either_cell", "ip_host", "wildcard", "pyopenssl_handshake_in_memory", "prelude_http_pool_built"],
 }
 
 # requested host -> (host string in the URL, names the certificate shape must cover)
@@ -105,6 +113,10 @@ def gen(rng):
         cell["ca"] = rng.choice(["ca_certs", "ca_cert_data"])
         cell["ssl_context"] = "none"
     sc = {"property": ID, "cell": cell}
+    if rng.random() < 0.2:
+        # a plain-http request through the same manager first (it makes the manager build an http pool from its keyword set):
+        # whatever TLS settings the manager was given must still govern the https request that follows
+        cell["prelude_http"] = True
     if path != "tunnel_tlsproxy" and rng.random() < 0.3:
         # pyOpenSSL backend (urllib3.contrib.pyopenssl injected) over the same simulated network, see simkit/ossl.py;
         # TLS-in-TLS is not offered by that backend (PyOpenSSLContext has no wrap_bio)
@@ -134,8 +146,12 @@ def reference(cell) -> tuple[str, list[str]]:
     else:
         eff = "CERT_REQUIRED"
     contradict = (ctxk in ("default",) and eff in ("CERT_NONE", "CERT_OPTIONAL")) or (ctxk == "verify_none" and reqs in ("CERT_REQUIRED", "CERT_OPTIONAL")) or (ctxk == "nocheck" and eff == "CERT_NONE" and False)
-    chain_ok = cell["issuer"] == "trusted" and (cell["ca"] != "none" or False)
-    if ctxk != "none" and cell["ca"] == "none":
+    if cell["ca"] != "none":
+        chain_ok = cell["issuer"] == "trusted"  # the configured CA file / data, and only it
+    elif ctxk == "none" and cell.get("backend", "ssl") == "ssl":
+        chain_ok = cell["issuer"] == "untrusted"  # no CA configured: the system store (see the top of this module) is loaded
+        # (PyOpenSSLContext has no load_default_certs(): that backend then knows no issuer at all)
+    else:
         chain_ok = False  # a caller's context without CA material knows no issuer
     reasons = []
     pin = cell["assert_fingerprint"]
@@ -256,7 +272,7 @@ def _run(sc: dict) -> Result:
         return tp
 
     if path == "direct":
-        w.default_listener = origin_factory
+        w.default_listener = lambda world, chan: (P.HttpPeer(world, chan, "plain", "origin") if chan.peer_addr[1] == 80 else origin_factory(world, chan))
     elif path == "tunnel":
         w.default_listener = H.origin_factory("proxy", "proxy")
         w.tunnel_factory = lambda w_, chan, target: origin_factory(w_, chan)
@@ -278,6 +294,18 @@ def _run(sc: dict) -> Result:
                 m = urllib3.ProxyManager("http://proxy.test:3128", retries=False, timeout=3.0, **kw)
             else:
                 m = urllib3.ProxyManager("https://proxy.test:8443", retries=False, timeout=3.0, **kw)
+            if cell.get("prelude_http"):
+                try:
+                    m.request("GET", "http://plain.test/pre").data
+                    res.probes["prelude_http_pool_built"] += 1
+                except (W.SimHang, W.StepLimit):
+                    raise
+                except Exception as e:
+                    # the prelude may fail for reasons of its own (assert_hostname / assert_fingerprint are handed to plain-http
+                    # connections too, which refuse them; through an https proxy the destination's pin is applied to the proxy):
+                    # nothing to do with the https request this check is about
+                    H.strip_tb(e)
+                    res.probes["prelude_http_failed:" + type(e).__name__] += 1
             r = m.request("GET", url, preload_content=False, headers={"X-Secret": "s3cr3t"})
             verified = getattr(r.connection, "is_verified", None)
             r.read()
@@ -380,7 +408,7 @@ def shrinks(sc):
         c = copy.deepcopy(sc)
         c["step_faults"] = []
         yield c
-    simple = {"backend": "ssl", "path": "direct", "host": "lower", "shape": "origin", "issuer": "trusted", "cert_reqs": "unset", "assert_hostname": "unset", "assert_fingerprint": "unset", "server_hostname": "unset", "ssl_context": "none", "ca": "ca_certs"}
+    simple = {"prelude_http": False, "backend": "ssl", "path": "direct", "host": "lower", "shape": "origin", "issuer": "trusted", "cert_reqs": "unset", "assert_hostname": "unset", "assert_fingerprint": "unset", "server_hostname": "unset", "ssl_context": "none", "ca": "ca_certs"}
     for k, v in simple.items():
         if sc["cell"].get(k, v) != v:
             c = copy.deepcopy(sc)
